@@ -393,7 +393,7 @@ def ob_qam(M):
 
 @obligation("conv/arrays_native", kind="bounded",
             desc="array forms (int64 arrays, 0-d, scalars np.int64/int) of the conversions agree with the scalar spec on "
-                 "sampled values incl. powers of two up to 2^61")
+                 "sampled values incl. powers of two up to 2^61; count_bit_errors with operands of different integer dtypes (narrow first or second, total and per axis)")
 def ob_conv_arrays():
     from pyphysim.util.conversion import binary2gray, gray2binary
     from pyphysim.util.misc import count_bit_errors
@@ -422,5 +422,23 @@ def ob_conv_arrays():
         want = sum(popcount(int(a) ^ int(b)) for a, b in zip(x, y))
         if int(count_bit_errors(x, y)) != want:
             return {"count_bit_errors": int(count_bit_errors(x, y)), "hamming": want}
+        # operands stored in different integer types (transmitted indexes of a small constellation next to wider received words):
+        # the count is the Hamming distance of the VALUES, in either argument order, in total and per axis
+        for dt in (np.uint8, np.int16, np.int32, np.uint16):
+            small = (x % (np.iinfo(dt).max + 1)).astype(dt)
+            wide = (y % (2 ** 40)).astype(np.int64)
+            want = sum(popcount(int(a) ^ int(b)) for a, b in zip(small, wide))
+            for a, b in ((small, wide), (wide, small)):
+                got = int(count_bit_errors(a, b))
+                if got != want:
+                    return {"count_bit_errors with dtypes": [str(a.dtype), str(b.dtype)], "observed": got, "hamming distance": want,
+                            "first values": [int(a[0]), int(b[0])]}
+            if len(small) >= 4:
+                n2 = len(small) // 2 * 2
+                A, B = small[:n2].reshape(2, -1), wide[:n2].reshape(2, -1)
+                per = np.asarray(count_bit_errors(A, B, axis=0)).ravel()
+                wantp = [sum(popcount(int(A[i, j]) ^ int(B[i, j])) for i in range(2)) for j in range(A.shape[1])]
+                if [int(v) for v in per] != wantp:
+                    return {"count_bit_errors(axis=0) with dtypes": [str(A.dtype), str(B.dtype)], "observed": [int(v) for v in per][:6], "expected": wantp[:6]}
         return None
     return bounded(gen(), check)
